@@ -123,6 +123,31 @@ def ensure_rs(package, flavor="release"):
     return out
 
 
+def ensure_fuzz(target):
+    """build one libFuzzer target of rs/fuzz (nightly, ASan) against the repository under test; returns the binary path"""
+    root = build_root()
+    src = os.path.join(_rs_src(), "fuzz")
+    tdir = os.path.join(root, "fuzz")
+    env = _env()
+    env["CARGO_TARGET_DIR"] = tdir
+    lock = os.path.join(src, "Cargo.lock")
+    if not os.path.exists(lock):
+        shutil.copy(os.path.join(repo(), "Cargo.lock"), lock)
+    with _Lock("cargo-fuzz"):
+        _run(["cargo", "+nightly", "fuzz", "build", target], src, env, "fuzz target " + target, timeout=3600)
+    b = os.path.join(tdir, "x86_64-unknown-linux-gnu", "release", target)
+    if not os.path.exists(b):
+        raise Inconclusive("fuzz binary missing: " + b)
+    return b
+
+
+def ensure_miri_runner():
+    """(cmd prefix, cwd, env) to run rtcheck under miri"""
+    root = build_root()
+    env = {"CARGO_TARGET_DIR": os.path.join(root, "miri"), "MIRIFLAGS": "-Zmiri-disable-isolation -Zmiri-permissive-provenance", "CARGO_NET_OFFLINE": "true"}
+    return ["cargo", "+nightly", "miri", "run", "-q", "-p", "rtcheck", "--"], _rs_src(), env
+
+
 def workdir(tag):
     d = os.path.join(VERIF, ".work", "%s-%d" % (tag, os.getpid()))
     if os.path.exists(d):
